@@ -6,6 +6,7 @@
 -/
 import Djc.Proofs.Render
 import Djc.Proofs.Plain
+import Djc.Proofs.Calm
 namespace Djc.Props.C06
 open Djc.Tpl Djc.Render Djc.Proofs.Render
 
@@ -91,6 +92,27 @@ theorem C06_full_partial_plain_nodes_touch_no_registry (env : Env) (fuel : Nat) 
     ∃ st, ((renderNodes env fuel page ctx).run.run w).2 = { w with steps := st } := by
   rw [(Djc.Proofs.Plain.model_plain env fuel).1 page ctx w hp hc]
   exact ⟨_, rfl⟩
+
+/-- **Providers leave nothing behind, at any nesting, on every path** (the part of `C06_full` with `{% provide %}`
+that is proved).  A page built from `{% provide %}` blocks around text, `{{ }}`, `{% if %}`, `{% for %}`, `{% with %}`
+and elements — providers nested to any depth, inside loops, any number of them — rendered in any world whose unused
+ids have no registry entry: whether the render finishes, runs out of fuel in the middle of a provider body or stops
+at the work budget (the `except` branch of `managed_provide_cache` runs for every open provider), the world
+afterwards is the world before except for the two counters.  `provide_cache`, `provide_references`,
+`all_reference_ids` and everything else are exactly as before. -/
+theorem C06_full_partial_providers_leave_nothing (env : Env) (fuel : Nat) (page : List Node) (ctx : Ctx) (w : World)
+    (hp : Djc.Proofs.Calm.calmL page = true) (ho : Djc.Proofs.Calm.okNamesL page = true)
+    (hc : Djc.Proofs.Plain.ctxFree ctx = true) (hf : Djc.Proofs.Calm.Fresh w) :
+    ∃ st k, ((renderNodes env fuel page ctx).run.run w).2 = { w with steps := st, nextId := w.nextId + k } := by
+  obtain ⟨k, h⟩ := (Djc.Proofs.Calm.model_calm env fuel).1 page ctx ctx w hp ho hc (Djc.Proofs.Calm.sameVars_refl ctx) hf
+  rw [h]
+  exact ⟨_, k, rfl⟩
+
+/-- the hypotheses are satisfiable: the empty world is fresh; a provider nested in a provider in a loop is in the
+fragment -/
+example : Djc.Proofs.Calm.Fresh {} := fun _ _ => ⟨rfl, rfl⟩
+example : Djc.Proofs.Calm.calmL [.forn "x".toList (.var ["xs".toList])
+    [.provide "k".toList [] [.provide "k".toList [] [.out (.var ["x".toList])]]]] = true := by decide
 
 /-- The property at full strength for the model of the code: whatever callback raises, every
 registry of the world is as before the render.  OPEN; false on the unchanged tree. -/
